@@ -23,19 +23,20 @@ import (
 const stream = "s"
 
 type cfg struct {
-	Name     string   `json:"name"`
-	Static   bool     `json:"static"`    // static_relay_pull enabled (retry forever, stop immediately)
-	Retry    int      `json:"retry"`     // API start: pull_retry_num
-	AutoStop int      `json:"auto_stop"` // API start: auto_stop_pull_after_no_out_ms
-	Push     []string `json:"push"`      // relay push target names
-	Query    []string `json:"query"`     // URL parameters of successive publishers
-	RtspPub  bool     `json:"rtsp_pub"`
-	CustPub  bool     `json:"cust_pub"` // the publisher is a customize pub session (ILalServer.AddCustomizePubSession)
-	RtspPull bool     `json:"rtsp_pull"` // the API pull goes to an RTSP origin
-	Alphabet []string `json:"alphabet"`
-	MaxSubs  int      `json:"max_subs"`
-	MaxPubs  int      `json:"max_pubs"`
-	Prefix   []string `json:"prefix"`
+	Name      string   `json:"name"`
+	Static    bool     `json:"static"`    // static_relay_pull enabled (retry forever, stop immediately)
+	Retry     int      `json:"retry"`     // API start: pull_retry_num
+	AutoStop  int      `json:"auto_stop"` // API start: auto_stop_pull_after_no_out_ms
+	Push      []string `json:"push"`      // relay push target names
+	Query     []string `json:"query"`     // URL parameters of successive publishers
+	RtspPub   bool     `json:"rtsp_pub"`
+	AutoStop2 *int     `json:"auto_stop_2,omitempty"` // the auto-stop setting of the second and later start calls (nil: the same)
+	CustPub   bool     `json:"cust_pub"`              // the publisher is a customize pub session (ILalServer.AddCustomizePubSession)
+	RtspPull  bool     `json:"rtsp_pull"`             // the API pull goes to an RTSP origin
+	Alphabet  []string `json:"alphabet"`
+	MaxSubs   int      `json:"max_subs"`
+	MaxPubs   int      `json:"max_pubs"`
+	Prefix    []string `json:"prefix"`
 }
 
 type replay struct {
@@ -56,14 +57,15 @@ func (c custPub) Close() {
 }
 
 type sys struct {
-	c     cfg
-	w     *world.W
-	subs  []*world.RtmpPeer
-	pub   interface{ Close() }
-	pubOK func() bool
-	npub  int
-	viols []seqx.Viol
-	infra error
+	c         cfg
+	w         *world.W
+	subs      []*world.RtmpPeer
+	pub       interface{ Close() }
+	pubOK     func() bool
+	npub      int
+	nApiStart int
+	viols     []seqx.Viol
+	infra     error
 
 	// ---- reference model of the pull rules
 	apiMay      bool // an API start has been called and no stop / kick since (attempts are allowed)
@@ -73,6 +75,7 @@ type sys struct {
 	mayCount    int            // attempts since the last API start / stop / kick / auto stop
 	lalCount    int            // attempts since the last stop (the server's own way of counting)
 	lastPresent int64          // ms: last instant a consumer was present
+	lastEarly   int64          // ms: last instant a consumer was really there (or the first start call): nothing stops the pull sooner than the window after it
 	dialSession map[int]string // attempt -> session id the API reported for it
 	seenDials   int
 	orphanTicks map[int]int
@@ -106,6 +109,7 @@ func newSys(c cfg) *sys {
 	s := &sys{c: c, w: world.New(conf), retry: -1, autoStop: 0, orphanTicks: map[int]int{}, dialQuery: map[int]string{}, dialSession: map[int]string{}}
 	s.w.EnableRelay(nil)
 	s.lastPresent = s.w.Now().UnixMilli()
+	s.lastEarly = s.lastPresent
 	for _, ev := range c.Prefix {
 		if err := s.Apply(ev); err != nil {
 			s.infra = fmt.Errorf("prefix event %s: %v", ev, err)
@@ -248,19 +252,32 @@ func (s *sys) Apply(ev string) error {
 		err = w.Settle()
 	case ev == "T":
 		err = w.Tick()
+		if len(s.subs) > 0 {
+			// (lal looks for consumers once a tick: one that comes and goes between two ticks is not seen, which
+			// the "stopped early" rule tolerates; the "must stop by" rule counts every consumer)
+			s.lastEarly = w.Now().UnixMilli()
+		}
 	case ev == "ApiStart":
 		s.apiMay = true
-		s.retry, s.autoStop = s.c.Retry, s.c.AutoStop
+		as := s.c.AutoStop
+		if s.c.AutoStop2 != nil && s.nApiStart > 0 {
+			as = *s.c.AutoStop2
+		}
+		s.nApiStart++
+		s.retry, s.autoStop = s.c.Retry, as
 		s.mayCount = 0
 		// the statement does not say when the auto-stop window of an API pull opens; the start call
 		// is taken as its beginning (the server does so for a stream it did not know yet)
 		s.lastPresent = nowBefore
+		if s.nApiStart == 1 {
+			s.lastEarly = nowBefore
+		}
 		budgetMay = true
 		scheme := "rtmp://"
 		if s.c.RtspPull {
 			scheme = "rtsp://"
 		}
-		r := w.SM.CtrlStartRelayPull(base.ApiCtrlStartRelayPullReq{Url: scheme + w.Host("origin") + "/live/" + stream, PullTimeoutMs: 0, PullRetryNum: s.c.Retry, AutoStopPullAfterNoOutMs: s.c.AutoStop})
+		r := w.SM.CtrlStartRelayPull(base.ApiCtrlStartRelayPullReq{Url: scheme + w.Host("origin") + "/live/" + stream, PullTimeoutMs: 0, PullRetryNum: s.c.Retry, AutoStopPullAfterNoOutMs: as})
 		apiStartResp = &r
 		err = w.Settle()
 	case ev == "ApiStop":
@@ -473,8 +490,8 @@ func (s *sys) Apply(ev string) error {
 	if ev == "T" && attachedBefore != "" {
 		if attachedNow == "" {
 			// stopped by the tick: must be the auto-stop rule
-			if s.autoStop < 0 || len(s.subs) > 0 || (s.autoStop > 0 && w.Now().UnixMilli()-s.lastPresent < int64(s.autoStop)-1000) {
-				s.add("pull/stopped-early", "the tick stopped the pull although auto-stop=%d ms, %d subscribers, last consumer seen %d ms ago", s.autoStop, len(s.subs), w.Now().UnixMilli()-s.lastPresent)
+			if s.autoStop < 0 || len(s.subs) > 0 || (s.autoStop > 0 && w.Now().UnixMilli()-s.lastEarly < int64(s.autoStop)-1000) {
+				s.add("pull/stopped-early", "the tick stopped the pull although auto-stop=%d ms, %d subscribers, last consumer seen %d ms ago", s.autoStop, len(s.subs), w.Now().UnixMilli()-s.lastEarly)
 			}
 			s.mayCount, s.lalCount = 0, 0
 		} else if s.autoStop >= 0 && len(s.subs) == 0 && w.Now().UnixMilli()-s.lastPresent >= int64(s.autoStop)+1000 {
@@ -551,6 +568,13 @@ func (s *sys) Fingerprint() string {
 	var sb strings.Builder
 	sb.WriteString(strings.ReplaceAll(s.w.Dump(), fmt.Sprintf("w%d-", s.w.ID), "w-"))
 	fmt.Fprintf(&sb, " |subs=%d pub=%v npub=%d apiMay=%v apiMust=%v may=%d lal=%d", len(s.subs), s.pubAlive(), s.npub, s.apiMay, s.apiMust, minI(s.mayCount, 4), minI(s.lalCount, 4))
+	if s.c.AutoStop2 != nil {
+		ea := s.w.Now().UnixMilli() - s.lastEarly
+		if ea > 6000 {
+			ea = 6000
+		}
+		fmt.Fprintf(&sb, " started-before=%v autostop=%d early-age=%d", s.nApiStart > 0, s.autoStop, ea)
+	}
 	if s.autoStop > 0 {
 		age := s.w.Now().UnixMilli() - s.lastPresent
 		if age > int64(s.autoStop)+2000 {
@@ -595,6 +619,14 @@ func configs(r *vk.Run) []cfg {
 		cs = append(cs, cfg{Name: fmt.Sprintf("api-pull-rtsp(retry=%d,autostop=%d)", p.r, p.a), Retry: p.r, AutoStop: p.a, RtspPull: true, Alphabet: pullAlpha, MaxSubs: 1, MaxPubs: 1})
 	}
 	long := strings.Repeat("k=0123456789abcdef&", 300) + "z=1"
+	// the start call repeated with another auto-stop setting (never, then a 4 s window): the second call's
+	// setting is in force from then on, and its window counts from the last consumer seen, not from long ago
+	{
+		two := 4000
+		cs = append(cs, cfg{Name: "api-pull(retry=-1,autostop=-1 then 4000)", Retry: -1, AutoStop: -1, AutoStop2: &two, Alphabet: pullAlpha, MaxSubs: 1, MaxPubs: 1})
+		cs = append(cs, cfg{Name: "api-pull(retry=-1,autostop=-1 then 4000)+watched-for-a-while", Retry: -1, AutoStop: -1, AutoStop2: &two, Alphabet: []string{"J", "T", "ApiStart", "ApiStop"}, MaxSubs: 1, MaxPubs: 1,
+			Prefix: []string{"ApiStart", "D:accept:origin", "J", "T", "T", "T"}})
+	}
 	// the input is a customize pub session (no connection, no network session: the pull rules must count it as an input all the same)
 	cs = append(cs, cfg{Name: "api-pull+customize-pub(retry=1,autostop=-1)", Retry: 1, AutoStop: -1, CustPub: true, Alphabet: pullAlpha, MaxSubs: 1, MaxPubs: 1})
 	cs = append(cs, cfg{Name: "static-pull+customize-pub", Static: true, CustPub: true, Alphabet: []string{"J", "T", "Pub", "Kick"}, MaxSubs: 1, MaxPubs: 1})
